@@ -12,8 +12,10 @@ import (
 	"encoding/hex"
 	"encoding/json"
 	"fmt"
+	"os"
 	"regexp"
 	"sort"
+	"strconv"
 	"testing"
 
 	netflow5 "github.com/EdgeCast/vflow/netflow/v5"
@@ -44,8 +46,12 @@ type plCase struct {
 	LazyDrain bool `json:"lazy_drain,omitempty"`
 	ExactFit  bool `json:"exact_fit,omitempty"` // UDPSize was derived from a datagram's own length
 	Verbose   bool `json:"verbose,omitempty"`   // workers log every datagram (verbose: true)
-	// Subset: indexes of phases that overflow the message queue by construction (slow consumer, > 1000 publishing
-	// datagrams): what is published there must be a sub-multiset of the expected payloads, nothing more
+	// Mirror (ipfix, sflow): mirroring is on; the workers queue a copy of every datagram for the mirror, which this
+	// rig reads only after each phase (a mirror that has fallen behind or stopped): neither must hold a worker up
+	Mirror bool `json:"mirror,omitempty"`
+	// Subset: indexes of phases with more than 1000 publishing datagrams, which overflow the message queue (by
+	// construction under a slow consumer, possibly otherwise): what is published there must be a sub-multiset of
+	// the expected payloads, nothing more
 	Subset    []int          `json:"subset,omitempty"`
 	Filter    []uint32       `json:"filter,omitempty"`
 	Exporters []wire.Hex     `json:"exporters"`
@@ -85,6 +91,9 @@ func genPipeline(t *rapid.T, proto string, envs map[string]*wire.GenEnv, maxPhas
 	c.UDPSize = rapid.SampledFrom([]int{1500, 1500, 1500, 1500, 600, 2048, 9000, 9000, 65535}).Draw(t, "udpsize")
 	c.Race = rapid.Bool().Draw(t, "race")
 	c.LazyDrain = rapid.Bool().Draw(t, "lazydrain")
+	if proto == "ipfix" || proto == "sflow" {
+		c.Mirror = rapid.IntRange(0, 3).Draw(t, "mirror") == 0
+	}
 	c.Verbose = rapid.IntRange(0, 3).Draw(t, "verbose") == 0
 	if rapid.IntRange(0, 2).Draw(t, "withchurn") == 0 {
 		c.Churn = rapid.SampledFrom([]int{1, 2, 3, 7, 20, 50}).Draw(t, "churn")
@@ -475,6 +484,20 @@ func genPipeline(t *rapid.T, proto string, envs map[string]*wire.GenEnv, maxPhas
 			}
 			c.Phases = append(c.Phases, withCross(data))
 		}
+		if c.Mirror && rapid.Bool().Draw(t, "mirrorflood") {
+			// more datagrams than the mirror queue holds (1000) while nobody reads it: the workers must drop the
+			// copies, not wait for room
+			c.LazyDrain = false
+			var flood []plDatagram
+			for i, n := 0, rapid.IntRange(1030, 1150).Draw(t, "mfn"); i < n; i++ {
+				d := wire.SFDatagram{Agent: []byte{10, 9, byte(i >> 8), byte(i)}, Seq: nextSeq(), Samples: []wire.SFSample{{Kind: "counter",
+					Counter: &wire.SFCounter{Seq: uint32(i), Recs: []wire.SFCounterRec{{Kind: "proc", Vals: []uint64{1, 2, 3, 4, uint64(i)}}}}}}}
+				flood = append(flood, plDatagram{Exp: i % ne, Data: d.Bytes(), Class: "valid"})
+			}
+			// 1000+ publishing datagrams may also outrun the queue consumer: sub-multiset oracle for this phase
+			c.Subset = append(c.Subset, len(c.Phases))
+			c.Phases = append(c.Phases, flood)
+		}
 	}
 	// boundary of the receive buffer: its size is set to the length of one of the case's own datagrams (or one
 	// octet less / more), so some datagrams fill the buffer exactly, some are cut by one octet, some just fit
@@ -571,6 +594,11 @@ func runPipeline(prop string, c *plCase) (v verdict, sig string, err error) {
 		return v, "", fmt.Errorf("bad case")
 	}
 	req := drvRequest{Op: "pipeline", Proto: c.Proto, Workers: c.Workers, UDPSize: c.UDPSize, OtherUDPSize: c.OtherUDPSize, Churn: c.Churn, LazyDrain: c.LazyDrain, Verbose: c.Verbose, Filter: c.Filter, ResetCache: true}
+	if c.Mirror {
+		shard, _ := strconv.Atoi(os.Getenv("VERIF_SHARD_INDEX"))
+		req.Mirror, req.MirrorDst, req.MirrorPort = true, fmt.Sprintf("127.%d.250.9", 1+shard%200), 9
+		v.label(true, "mirroring-on")
+	}
 	for _, ph := range c.Phases {
 		for _, d := range ph {
 			if d.Exp < 0 || d.Exp >= len(c.Exporters) {
@@ -579,14 +607,27 @@ func runPipeline(prop string, c *plCase) (v verdict, sig string, err error) {
 		}
 		req.Phases = append(req.Phases, toDrvPhase(c, ph))
 	}
-	race := c.Race && driverPath(true) != ""
+	// the mirror function of a request outlives it (it never returns while its socket works) and reads the global
+	// options, which the next request sets again: that is the driver's doing, not the collector's, so requests
+	// with mirroring use the plain build (as C16 does)
+	race := c.Race && !c.Mirror && driverPath(true) != ""
+	if c.Mirror {
+		// the mirror function of a request never returns and goes on reading the global options: a process that has
+		// served a mirroring request is not reused (a later request's buffer size would reach the old goroutine)
+		drivers.drop(race)
+		defer drivers.drop(race)
+	}
 	d, e := drivers.get(race, 400)
 	if e != nil {
 		return v, "", e
 	}
 	resp, died, diag := d.call(&req)
 	if died {
+		hung := d.hung
 		drivers.drop(race)
+		if hung {
+			return v, "stall", fmt.Errorf("the workers of a phase never finished (workers=%d, mirroring=%v): a worker is blocked for good with a received datagram in hand; driver output: %s", c.Workers, c.Mirror, tail(diag, 600))
+		}
 		return v, "crash", fmt.Errorf("the worker pipeline terminated the process (workers=%d, race build=%v): %s", c.Workers, race, diag)
 	}
 	if resp.Error != "" {
@@ -620,7 +661,7 @@ func runPipeline(prop string, c *plCase) (v verdict, sig string, err error) {
 	}
 	subset := map[int]bool{}
 	for _, pi := range c.Subset {
-		if !c.LazyDrain || pi < 0 || pi >= len(c.Phases) || len(c.Phases[pi]) < 1000 {
+		if pi < 0 || pi >= len(c.Phases) || len(c.Phases[pi]) < 1000 {
 			return v, "", fmt.Errorf("bad case: subset phase")
 		}
 		subset[pi] = true
